@@ -342,3 +342,14 @@ impl ReadCursor {
         }
     }
 }
+
+impl Drop for ReadCursor {
+    fn drop(&mut self) {
+        // The list that is current when the queue goes away was never retired
+        unsafe {
+            let last_group = self.readers.load(Ordering::Relaxed);
+            ptr::read(last_group);
+            alloc::deallocate(last_group, 1);
+        }
+    }
+}
